@@ -166,6 +166,17 @@ def run(ctx):
             and pat is not None and U.derives_from(chk.node, pat, lambda n: U.is_self_attr(n, '_prefix_filename'))
         ck.expect(ok, 'C06-D4', chk.qual, norm_text(g),
                   'journal glob pattern %r does not cover the journal name suffix %r' % (suffix, sorted(jsuf)), chk.loc(g))
+        # the prefix is a file name, not a pattern: its own `[`, `*`, `?` must not be interpreted by glob, or a journal of a crawl
+        # called "a[1]" is never found and the next run starts on a torn archive
+        esc = False
+        if pat is not None:
+            for x in ast.walk(U.expand_locals(chk.node, pat)):
+                if isinstance(x, ast.Call) and (dotted(x.func) or '').endswith('glob.escape') and x.args and any(
+                        U.is_self_attr(y, '_prefix_filename') for y in ast.walk(x.args[0])):
+                    esc = True
+        ck.expect(esc, 'C06-D4', chk.qual, 'glob.escape(prefix) + %r' % (suffix,),
+                  'the archive prefix is put into the glob pattern unescaped: with a prefix containing [ ] * or ? an existing journal does '
+                  'not match and the run starts although the archive is incomplete', chk.loc(g))
         # archive name starts with the prefix the glob uses
         gen = repo.func(CLS + '._generate_warc_filename')
         rets = [n for n in walk_no_nested(gen.node) if isinstance(n, ast.Return) and n.value is not None]
@@ -367,10 +378,50 @@ def _check_append(ctx, fi, app_call):
                     isinstance(x, ast.Name) and x.id in journal_names for x in ast.walk(c.args[0])):
                 return True
         return False
-    p = cfg.find_path(A, lambda n: n in (cfg.exit, cfg.xexit), stop=is_remove)
+    def absent_or_removed(n):
+        # `if os.path.exists(<journal>): os.remove(<journal>)`: nothing to remove on the other branch
+        if n.kind == 'if' and any((dotted(c.func) or '') == 'os.path.exists' and c.args and any(
+                isinstance(x, ast.Name) and x.id in journal_names for x in ast.walk(c.args[0])) for c in U.calls(n.stmt.test)):
+            return any(is_remove(m) for b in n.stmt.body for m in cfg.nodes_of(b)) or any(
+                (dotted(c.func) or '') in ('os.remove', 'os.unlink') for b in n.stmt.body for c in U.calls(b))
+        return is_remove(n)
+    p = cfg.find_path(A, lambda n: n in (cfg.exit, cfg.xexit), stop=absent_or_removed)
     ck.expect(p is None and any(is_remove(n) for n in cfg.nodes), 'C06-D3', where, 'journal removed on every exit',
               'after the append started there is a path to a function exit that does not remove the journal',
               fi.loc(app_stmt), path=describe_path(p) if p else None)
+    # (iv) the same from the moment the journal is created: an I/O error while the journal itself is written or closed must not
+    #      leave a (half-written) journal next to an untouched archive
+    for c, mode in jopen:
+        st = U.enclosing_stmt(c, pm)
+        for jn_ in cfg.nodes_of(st)[:1]:
+            pj = cfg.find_path(jn_, lambda n: n in (cfg.exit, cfg.xexit), stop=absent_or_removed,
+                               first_edges=lambda a, b, k: True)
+            ck.expect(pj is None, 'C06-D3', where, 'journal removed on every exit once it has been created',
+                      'an I/O error while the journal is written or closed leaves the journal file behind although the archive was not '
+                      'touched: "no journal file remains" fails and the next run refuses to start', fi.loc(c),
+                      path=describe_path(pj) if pj else None)
+    # (v) while the process lives on, no exception may take the journal away and leave the torn record: every exception edge out
+    #     of the append passes the truncation before it reaches the journal removal (a handler for OSError only lets a
+    #     KeyboardInterrupt or an error of the record iterator run `finally: remove(journal)` with the partial record in place)
+    def is_trunc_any(n):
+        e = L_node_expr(n)
+        if e is None:
+            return False
+        for c in U.calls(e, attr='truncate'):
+            d = dotted(c.func) or ''
+            ln = (c.args[1] if len(c.args) > 1 else None) if d in ('os.truncate', 'os.ftruncate') else (c.args[0] if c.args else None)
+            if isinstance(ln, ast.Name) and ln.id in size_names:
+                return True
+        return False
+    # (one fault at a time: after the exception left the append only its own propagation is followed - handler entry, uncaught /
+    #  re-raise edges and normal flow - not a second failure inside the handler)
+    px = cfg.find_path(A, lambda n: absent_or_removed(n), stop=is_trunc_any,
+                       edge_ok=lambda a, b, k: a is A or (not k.startswith('x:')) or k in ('x:uncaught', 'x:reraise'),
+                       first_edges=lambda a, b, k: k.startswith('x:'))
+    ck.expect(px is None, 'C06-D3', where, 'every exception out of the append is rolled back before the journal is removed',
+              'an exception that is not an OSError (KeyboardInterrupt, an error raised while the record is read) leaves the partial '
+              'record in the archive and still removes the journal: a torn archive with no journal, which the next run appends to',
+              fi.loc(app_stmt), path=describe_path(px) if px else None)
 
 
 def _dominated_through_if(cfg, dom, st, A, pm):
